@@ -45,6 +45,9 @@ type appCase struct {
 	Procs      int    `json:"gomaxprocs"`
 	LogDir     string `json:"log_dir"`
 	StartMs    int64  `json:"start_unix_ms"`
+	// for inputs built from known segments: the valid frames by construction (hex)
+	Expect    string `json:"expect_frames,omitempty"`
+	HasExpect bool   `json:"has_expect,omitempty"`
 	// process level
 	Process     bool   `json:"process,omitempty"`
 	StdinMode   string `json:"stdin_mode,omitempty"`  // file | pipe
@@ -311,6 +314,62 @@ func displayExpected(start time.Time, input []byte) []byte {
 	return b.Bytes()
 }
 
+// appInputX is appInput that also returns, for inputs built from known segments,
+// the concatenation of their valid frames (the expectation by construction,
+// independent of the code under test).
+func appInputX(r *ref.SplitMix64, i int) (in []byte, frames []byte, known bool) {
+	switch i % 7 {
+	case 2, 5, 6:
+		s := gen.CleanStream(r, gen.CleanOpts{MinFrames: 1, MaxFrames: 8, TruncTail: i%7 != 2})
+		if i%7 == 2 {
+			for len(s) > 0 && s[len(s)-1].Kind != "frame" {
+				s = s[:len(s)-1]
+			}
+		}
+		total := 0
+		var kept gen.Stream
+		for _, g := range s {
+			if total+len(g.Bytes) > 9000 {
+				break
+			}
+			total += len(g.Bytes)
+			kept = append(kept, g)
+		}
+		for _, g := range kept {
+			if g.Kind == "frame" {
+				frames = append(frames, g.Bytes...)
+			}
+		}
+		return kept.Bytes(), frames, true
+	case 4:
+		n := r.Range(1, 12)
+		for j := 0; j < n; j++ {
+			var f []byte
+			if r.Chance(1, 4) {
+				t := 1005 + r.Intn(2)
+				f = ref.Frame(ref.EncodeBase(gen.RandBase(r, t), t))
+			} else {
+				m := gen.RandMSM(r, gen.MSMOpts{})
+				if r.Chance(1, 5) {
+					m.FixIllegalTime(r)
+				}
+				p := ref.EncodeMSM(m)
+				if len(p) > 1023 {
+					continue
+				}
+				f = ref.Frame(p)
+			}
+			in = append(in, f...)
+			frames = append(frames, f...)
+			if r.Chance(1, 3) {
+				in = append(in, gen.Junk(r).Bytes...)
+			}
+		}
+		return in, frames, true
+	}
+	return appInput(r, i), nil, false
+}
+
 // appInput generates an input for the applications.
 func appInput(r *ref.SplitMix64, i int) []byte {
 	switch i % 7 {
@@ -548,6 +607,12 @@ func monC10(c *child.Ctx, replay json.RawMessage) {
 			c.Violate("baseline-not-frames", bad, cj)
 			return
 		}
+		if k.HasExpect {
+			// the input was built from known segments: its valid frames are known by
+			// construction, independently of the code under test
+			want, _ = hex.DecodeString(k.Expect)
+			c.Count("outputs_judged_by_construction", 1)
+		}
 		if !o.Quiescent {
 			c.Inconclusive("writer goroutines did not become quiescent")
 			return
@@ -645,18 +710,20 @@ func monC10(c *child.Ctx, replay json.RawMessage) {
 	n := c.Share(c.Pick(600, 16000))
 	var cases []appCase
 	for i := 0; i < n; i++ {
-		in := appInput(r, i)
+		in, frames, known := appInputX(r, i)
 		if len(in) > 12000 {
 			in = in[:12000]
+			known = false
 		}
 		mode, us := writerProfile(r)
 		if mode == "block" {
 			mode, us = "sleep", 100
 		}
-		k := appCase{ID: i + 1, App: "rtcmfilter", Input: hexs(in), Display: i%4 >= 2, Record: i%2 == 1, Chunk: []int{1, 16, 300, 0}[r.Intn(4)], ReaderUs: []int{0, 0, 50}[r.Intn(3)],
+		k := appCase{ID: i + 1, App: "rtcmfilter", Input: hexs(in), Expect: hexs(frames), HasExpect: known, Display: i%4 >= 2, Record: i%2 == 1, Chunk: []int{1, 16, 300, 0}[r.Intn(4)], ReaderUs: []int{0, 0, 50}[r.Intn(3)],
 			WriterMode: mode, WriterUs: us, Procs: []int{1, 2, 4, 16}[r.Intn(4)], StartMs: fixedStart.UnixMilli()}
 		if k.Display && len(in) > 4000 {
 			k.Input = hexs(in[:4000])
+			k.HasExpect = false
 		}
 		cases = append(cases, k)
 	}
@@ -665,16 +732,18 @@ func monC10(c *child.Ctx, replay json.RawMessage) {
 	// process level: the real binary, stdin from a pipe in random chunks or a file
 	np := c.Share(c.Pick(60, 2000))
 	for i := 0; i < np; i++ {
-		in := appInput(r, i)
+		in, frames, known := appInputX(r, i)
 		if len(in) > 30000 {
 			in = in[:30000]
+			known = false
 		}
-		k := appCase{ID: 200000 + i, App: "rtcmfilter", Input: hexs(in), Process: true, Display: i%4 >= 2, Record: i%2 == 1,
+		k := appCase{ID: 200000 + i, App: "rtcmfilter", Input: hexs(in), Expect: hexs(frames), HasExpect: known, Process: true, Display: i%4 >= 2, Record: i%2 == 1,
 			StdinMode: []string{"file", "pipe"}[r.Intn(2)], StdoutMode: []string{"fast", "slow"}[r.Intn(2)], Chunk: []int{0, 1, 64}[r.Intn(3)], ReaderUs: []int{0, 200}[r.Intn(2)],
 			Procs: []int{1, 2, 16}[r.Intn(3)], HookProfile: []string{"", "y200x2", "s10u200"}[r.Intn(3)]}
 		if k.Chunk == 1 && len(in) > 3000 {
 			in = in[:3000]
 			k.Input = hexs(in)
+			k.HasExpect = false
 		}
 		cj := c.BeginV(k)
 		dir := filepath.Join(c.WorkDir, fmt.Sprintf("proc%d", i))
@@ -684,6 +753,10 @@ func monC10(c *child.Ctx, replay json.RawMessage) {
 		res := runAppProcess(c, filepath.Join(c.BinDir, "rtcmfilter"), []string{"-c", filepath.Join(dir, "cfg.json")}, in, k, dir, nil)
 		os.RemoveAll(dir)
 		want, nmsgs, _ := filterExpected(in)
+		if k.HasExpect {
+			want = frames
+			c.Count("outputs_judged_by_construction", 1)
+		}
 		switch {
 		case res.TimedOut:
 			c.Inconclusive("rtcmfilter process did not exit within 90 s")
